@@ -122,12 +122,13 @@ def rule_valid_before_insert(ctx, prog, an, rule, ca=None):
     """IPFIX cache writes are dominated by is_valid()==true on the stored template, and is_valid reads field_length."""
     ca = ca or CacheAccess(prog, an)
     n = 0
-    for w in ca.writes:
+    # (writes made inside a private helper are seen from the helper's call sites, see write_sites)
+    for w in write_sites(prog, an, ca):
         if w["adt"] != "variable_versions::ipfix::IPFixParser" or w["kind"] not in ("insert", "extend"):
             continue
         n += 1
         b = w["body"]
-        val, key, src = stored_value_origin(an, prog, w)
+        val, key, src = w["val"], w["key"], w["src"]
         vcore = canon(peel(val))
         guards = guards_by_call(an, b, set(["variable_versions::ipfix::CommonTemplate::is_valid"]))
         ok = False
